@@ -33,7 +33,11 @@ LinePool == <<
   <<>>,
   S("  "),
   S("@x: i1; b"),
-  <<160>> \o S("// nbsp indented") >>
+  <<160>> \o S("// nbsp indented"),
+  S("@l: [i1, [a], i2];"),
+  S("@m: {k: [i1, b + i1]};"),
+  S("@description: [i7]; a"),
+  S("@name: ") \o Q1 \o S("n2") \o Q1 \o S("; @k: i1; c") >>
 
 Term == IF style = 2 THEN <<13, 10>> ELSE <<10>>
 RECURSIVE Assemble(_)
